@@ -251,6 +251,17 @@ fn add(a: int, b: int) -> int { return (+ a b) }
 fn apply(f: fn(int) -> int, x: int) -> int { return (f x) }
 fn getf(c: int) -> fn(int) -> int { return inc }
 fn mkp(i: int) -> P { return P { name: (int_to_string i), xs: [i, i] } }
+fn mkq(i: int) -> Q { return Q { p1: (mkp i), p2: (mkp (+ i 1)), label: (+ "q" (int_to_string i)) } }
+fn mkm(i: int) -> HashMap<string, int> {
+    let m: HashMap<string, int> = (map_new)
+    (map_set m (int_to_string i) 1)
+    (map_set m (int_to_string i) 2)
+    return m
+}
+fn bump(m: HashMap<string, int>, k: string) -> int {
+    if (map_has m k) { (map_set m k (+ (map_get m k) 1)) } else { (map_set m k 1) }
+    return (map_get m k)
+}
 fn ids(s: string) -> string { return s }
 fn idp(p: P) -> P { return p }
 fn ida(a: array<string>) -> array<string> { return a }
@@ -347,6 +358,27 @@ CHURN = {
     "hashmap_new_set": ("", 'let m: HashMap<string, int> = (map_new)\n(map_set m (int_to_string i) i)\n(map_set m "k" 1)\nset acc (+ acc (map_length m))', ""),
     "hashmap_overwrite": ('let m: HashMap<string, int> = (map_new)', '(map_set m (+ "k" "ey") i)\n(map_set m (int_to_string (% i 4)) i)\nset acc (+ acc (map_length m))', ""),
     "hashmap_get_has": ('let m: HashMap<string, int> = (map_new)\n(map_set m "1" 5)', 'if (map_has m (int_to_string (% i 3))) { set acc (+ acc (map_get m (int_to_string (% i 3)))) } else {}', ""),
+    # -- the update path of the hashmap (same key written again) with key TEXT that differs per iteration: with identical
+    #    text the interning table folds every key object into one and a lost key reference cannot show as growth
+    "hashmap_update_string_key": ("", 'let m: HashMap<string, int> = (map_new)\nlet key: string = (+ "word-" (int_to_string i))\n(map_set m key 1)\n(map_set m "fixed" i)\n(map_set m key 2)\nset acc (+ acc (map_get m key))', ""),
+    "hashmap_update_rebuilt_key": ("", 'let m: HashMap<string, int> = (map_new)\n(map_set m (+ "w" (int_to_string i)) 1)\n(map_set m (str_concat "w" (int_to_string i)) 2)\n(map_set m (+ "w" (int_to_string i)) 3)\nset acc (+ acc (map_length m))', ""),
+    "hashmap_counter_update": ("", 'let m: HashMap<string, int> = (map_new)\nlet key: string = (+ "cnt-" (int_to_string i))\n(map_set m key 0)\nlet mut j: int = 0\nwhile (< j 3) {\n (map_set m key (+ (map_get m key) 1))\n set j (+ j 1)\n}\nset acc (+ acc (map_get m key))', ""),
+    "hashmap_scoped_many_keys": ("", 'let m: HashMap<string, int> = (map_new)\nlet mut j: int = 0\nwhile (< j 4) {\n (map_set m (+ (int_to_string i) (+ "/" (int_to_string j))) j)\n set j (+ j 1)\n}\nset j 0\nwhile (< j 4) {\n (map_set m (+ (int_to_string i) (+ "/" (int_to_string j))) (+ j 10))\n set j (+ j 1)\n}\nset acc (+ acc (map_length m))', ""),
+    "hashmap_update_fixed_keys_fresh_values": ('let m: HashMap<string, string> = (map_new)\nlet keys: array<string> = ["a", "b", "c"]\n(map_set m "a" "0")\n(map_set m "b" "0")\n(map_set m "c" "0")', '(map_set m (at keys (% i 3)) (+ "v" (int_to_string i)))\nset acc (+ acc (map_length m))', ""),
+    "hashmap_string_values_scoped": ("", 'let m: HashMap<string, string> = (map_new)\nlet key: string = (+ "k" (int_to_string i))\n(map_set m key (+ "first" (int_to_string i)))\n(map_set m key (+ "second" (int_to_string i)))\nlet v: string = (map_get m key)\nset acc (+ acc (str_length v))', ""),
+    "hashmap_values_of_string_map": ('let m: HashMap<string, string> = (map_new)\n(map_set m "a" "x")', '(map_set m "a" (+ "val" (int_to_string i)))\nlet vs: array<string> = (map_values m)\nset acc (+ acc (str_length (at vs 0)))', ""),
+    "hashmap_passed_and_updated": ("", 'let m: HashMap<string, int> = (map_new)\nset acc (+ acc (bump m (+ "p" (int_to_string i))))\nset acc (+ acc (bump m (+ "p" (int_to_string i))))', ""),
+    # -- builtins that are compiled to OP_CALL_EXTERN and take / return heap values
+    "extern_call_string_arg": ("", 'set acc (+ acc (bstr_utf8_length (+ "abc" (int_to_string i))))', ""),
+    "extern_call_string_arg_bool": ("", 'if (bstr_validate_utf8 (+ "abc" (int_to_string i))) { set acc (+ acc 1) } else {}', ""),
+    "extern_call_string_result": ("", 'let e: string = (getenv (+ "NLV_C14_NO_SUCH_VAR_" (int_to_string i)))\nset acc (+ acc (str_length e))', ""),
+    "extern_call_array_result": ("", 'let b: array<int> = (bytes_from_string (+ "abc" (int_to_string i)))\nset acc (+ acc (array_length b))', ""),
+    "extern_call_int_arg": ("", 'let s: string = (string_from_char (+ 65 (% i 26)))\nif (is_digit (+ 48 (% i 12))) { set acc (+ acc (str_length s)) } else {}', ""),
+    # -- projections applied to temporaries (the container's only reference is the operand-stack slot)
+    "temp_struct_field": ("", 'let s: string = (mkp i).name\nlet x: array<int> = (mkp i).xs\nset acc (+ acc (+ (str_length s) (array_length x)))', ""),
+    "temp_nested_field": ("", 'let s: string = (mkq i).p2.name\nlet t: string = (mkq i).label\nset acc (+ acc (+ (str_length s) (str_length t)))', ""),
+    "temp_literal_projection": ("", 'let s: string = (at [(+ "e" (int_to_string i)), "z"] 0)\nlet t: string = (i, (+ "t" (int_to_string i))).1\nlet u: string = P { name: (+ "n" (int_to_string i)), xs: [i] }.name\nset acc (+ acc (+ (str_length s) (+ (str_length t) (str_length u))))', ""),
+    "keys_of_temporary_map": ("", 'let ks: array<string> = (map_keys (mkm i))\nset acc (+ acc (+ (array_length ks) (map_get (mkm i) (int_to_string i))))', ""),
     "hashmap_keys_values": ('let m: HashMap<string, int> = (map_new)\n(map_set m "a" 1)\n(map_set m "b" 2)', 'let ks: array<string> = (map_keys m)\nlet vs: array<int> = (map_values m)\nset acc (+ acc (+ (array_length ks) (array_length vs)))', ""),
 }
 
@@ -453,6 +485,43 @@ fn choose_f(c: bool) -> fn(array<int>) -> array<int> {
     if c { return id_AI } else { return id2_AI }
 }
 fn dbl(x: int) -> int { return (* x 2) }
+fn fresh_s(i: int) -> string { return (+ "fresh-string-number-" (int_to_string i)) }
+fn fresh_p(i: int) -> P { return P { name: (fresh_s i), xs: [i, i], tags: [(fresh_s (+ i 1)), (fresh_s (+ i 2))] } }
+fn fresh_q(i: int) -> Q { return Q { p1: (fresh_p i), p2: (fresh_p (+ i 10)), label: (fresh_s (+ i 20)) } }
+fn fresh_as(i: int) -> array<string> { return [(fresh_s i), (fresh_s (+ i 1)), (fresh_s (+ i 2))] }
+fn fresh_aa(i: int) -> array<array<int>> { return [[i], [i, i], []] }
+fn fresh_ap(i: int) -> array<P> { return [(fresh_p i), (fresh_p (+ i 5))] }
+fn fresh_ts(i: int) -> (int, string) { return (i, (fresh_s i)) }
+fn fresh_m(i: int) -> HashMap<string, int> {
+    let m: HashMap<string, int> = (map_new)
+    (map_set m (fresh_s i) i)
+    (map_set m (fresh_s i) (+ i 1))
+    return m
+}
+fn fresh_u(i: int) -> U {
+    if (== (% i 3) 0) { return U.Str { us: (fresh_s i) } } else {
+        if (== (% i 3) 1) { return U.Arr { uxs: [i, i, i] } } else { return U.Rec { rp: (fresh_p i) } }
+    }
+}
+fn temp_u_s(i: int) -> string {
+    let mut o: string = "-"
+    match (fresh_u i) {
+        Str(a) => {
+            let s: string = a.us
+            set o s
+        },
+        Arr(b) => {
+            let x: array<int> = b.uxs
+            set o (int_to_string (array_length x))
+        },
+        Rec(c) => {
+            let pp: P = c.rp
+            set o pp.name
+        },
+        Non(e) => { set o "non" }
+    }
+    return o
+}
 """)
     return "\n".join(out)
 
@@ -486,6 +555,15 @@ class AliasMachine:
         self.ops[op] = self.ops.get(op, 0) + 1
 
     # ---- leaves ----
+    def uniq(self):
+        """an int expression whose value is unlikely to repeat (fresh_* helpers build their strings from it, so that
+        the strings are not shared with other live objects through the intern table)"""
+        self.n += 1
+        base = self.n * 37
+        if self.counters and self.r.random() < 0.6:
+            return "(+ %d %s)" % (base, self.r.choice(self.counters))
+        return str(base)
+
     def small_int(self):
         if self.counters and self.r.random() < 0.4:
             return self.r.choice(self.counters)
@@ -566,6 +644,38 @@ class AliasMachine:
         ws = [w for w, rt in self.workers if rt == t]
         if ws:
             alts.append(lambda: "(%s %s %s %s %s)" % (r.choice(ws), self.e("AI", d1), self.e("S", d1), self.e("P", d1), self.e("AS", d1)))
+        # ---- projections applied to TEMPORARIES: the container's only reference is the operand-stack slot ----
+        TEMP = {
+            "S": [lambda: "(fresh_p %s).name" % self.uniq(), lambda: "(fresh_q %s).label" % self.uniq(),
+                  lambda: "(fresh_q %s).%s.name" % (self.uniq(), r.choice(["p1", "p2"])),
+                  lambda: "(mk_p (fresh_s %s) %s %s).name" % (self.uniq(), self.e("AI", 0), self.e("AS", 0)),
+                  lambda: "P { name: (fresh_s %s), xs: %s, tags: %s }.name" % (self.uniq(), self.e("AI", 0), self.e("AS", 0)),
+                  lambda: "Q { p1: (fresh_p %s), p2: %s, label: (fresh_s %s) }.%s" % (self.uniq(), self.e("P", 0), self.uniq(), r.choice(["label", "p1.name"])),
+                  lambda: "(at [(fresh_s %s), %s] %d)" % (self.uniq(), self.e("S", 0), r.randrange(2)),
+                  lambda: "(%d, (fresh_s %s)).1" % (r.randint(0, 9), self.uniq()),
+                  lambda: "((fresh_s %s), %s).0" % (self.uniq(), self.e("AI", 0)),
+                  lambda: "(temp_u_s %s)" % self.uniq(),
+                  lambda: "(get_AS (fresh_as %s) %d %s)" % (self.uniq(), r.randrange(3), self.e("S", 0)),
+                  lambda: "(get_AP (fresh_ap %s) %d %s).name" % (self.uniq(), r.randrange(2), self.e("P", 0)),
+                  lambda: "(u_s (fresh_u %s) %s)" % (self.uniq(), self.e("S", 0))],
+            "AI": [lambda: "(fresh_p %s).xs" % self.uniq(), lambda: "(fresh_q %s).%s.xs" % (self.uniq(), r.choice(["p1", "p2"])),
+                   lambda: "P { name: %s, xs: [%s, 1], tags: %s }.xs" % (self.e("S", 0), self.uniq(), self.e("AS", 0)),
+                   lambda: "(get_AA (fresh_aa %s) %d %s)" % (self.uniq(), r.randrange(3), self.e("AI", 0)),
+                   lambda: "(u_xs (fresh_u %s) %s)" % (self.uniq(), self.e("AI", 0))],
+            "AS": [lambda: "(fresh_p %s).tags" % self.uniq(), lambda: "(fresh_q %s).%s.tags" % (self.uniq(), r.choice(["p1", "p2"])),
+                   lambda: "(array_slice (fresh_as %s) %d 3)" % (self.uniq(), r.randrange(2)),
+                   lambda: "(map_keys (fresh_m %s))" % self.uniq()],
+            "P": [lambda: "(fresh_q %s).%s" % (self.uniq(), r.choice(["p1", "p2"])),
+                  lambda: "Q { p1: (fresh_p %s), p2: %s, label: %s }.p1" % (self.uniq(), self.e("P", 0), self.e("S", 0)),
+                  lambda: "(u_p (fresh_u %s) %s)" % (self.uniq(), self.e("P", 0)),
+                  lambda: "(get_AP (fresh_ap %s) %d %s)" % (self.uniq(), r.randrange(2), self.e("P", 0))],
+            "Q": [lambda: "(fresh_q %s)" % self.uniq()], "U": [lambda: "(fresh_u %s)" % self.uniq()],
+            "AP": [lambda: "(fresh_ap %s)" % self.uniq()], "AA": [lambda: "(fresh_aa %s)" % self.uniq()],
+            "TS": [lambda: "(fresh_ts %s)" % self.uniq()],
+        }
+        if t in TEMP and r.random() < 0.22:
+            self.count("temp." + t)
+            return r.choice(TEMP[t])()
         if t == "S":
             alts += [self.word, self.word, lambda: "(+ %s %s)" % (self.e("S", 0), self.word())]
             if self.vars_of("P"):
@@ -696,6 +806,15 @@ class AliasMachine:
         if k < 0.80:
             j = r.random()
             self.count("print")
+            if j < 0.18:
+                self.count("temp.print")
+                return ["%s(println %s)" % (pad, r.choice([
+                    lambda: "(fresh_ts %s).1" % self.uniq(), lambda: "(at (fresh_as %s) %d)" % (self.uniq(), r.randrange(3)),
+                    lambda: "(array_length (at (fresh_aa %s) %d))" % (self.uniq(), r.randrange(3)),
+                    lambda: "(map_get (fresh_m %s) (fresh_s 1))" % self.uniq(),
+                    lambda: "(== (fresh_p %s).name (fresh_s 3))" % self.uniq(),
+                    lambda: "(str_length (fresh_q %s).p1.name)" % self.uniq(),
+                    lambda: "(+ (fresh_p %s).name (fresh_q %s).label)" % (self.uniq(), self.uniq())])())]
             if j < 0.6:
                 return ["%s(println %s)" % (pad, self.e("S", 2))]
             c = self.arrays(False)
@@ -1218,7 +1337,121 @@ fn main() -> int {
 """ % n
 
 
-TEMPLATES = [("two_locals", _t_two_locals), ("containers", _t_containers), ("struct_sharing", _t_struct_sharing),
+def _t_temporaries(r):
+    n = r.randint(3, 8)
+    b = r.randint(10, 90)
+    return T_DECLS + """
+struct Inner { nm: string, itags: array<string> }
+struct Person { pname: string, age: int, inner: Inner, nums: array<int> }
+fn mk_name(i: int) -> string { return (+ "person-number-" (int_to_string i)) }
+fn mk_in(i: int) -> Inner { return Inner { nm: (mk_name i), itags: [(mk_name (+ i 1)), "t"] } }
+fn mk(i: int) -> Person { return Person { pname: (mk_name i), age: i, inner: (mk_in (+ i 50)), nums: [i, i] } }
+fn pair(i: int) -> (int, string) { return (i, (mk_name i)) }
+fn mk_arr(n: int) -> array<string> {
+    let mut o: array<string> = []
+    let mut i: int = 0
+    while (< i n) {
+        set o (array_push o (mk_name (+ 1000 i)))
+        set i (+ i 1)
+    }
+    return o
+}
+fn mk_aa(n: int) -> array<array<int>> { return [[n], [n, n]] }
+fn mk_sh(i: int) -> Sh {
+    if (== (%% i 3) 0) { return Sh.Circle { cname: (mk_name i), r: i } } else {
+        if (== (%% i 3) 1) { return Sh.Box { btags: (mk_arr 2) } } else { return Sh.Holder { hp: P { name: (mk_name i), xs: [i], tags: [] } } }
+    }
+}
+fn mkm(i: int) -> HashMap<string, int> {
+    let m: HashMap<string, int> = (map_new)
+    (map_set m (mk_name i) i)
+    (map_set m (mk_name i) (+ i 1))
+    return m
+}
+fn shname(i: int) -> string {
+    let mut o: string = "?"
+    match (mk_sh i) {
+        Circle(c) => {
+            let s: string = c.cname
+            set o s
+        },
+        Box(b) => {
+            let t: array<string> = b.btags
+            set o (at t 1)
+        },
+        Holder(h) => {
+            let q: P = h.hp
+            set o q.name
+        },
+        Nil(n) => { set o "nil" }
+    }
+    return o
+}
+fn same(a: string, b: string, want_a: string, want_b: string) -> int {
+    let mut bad: int = 0
+    if (!= a want_a) { set bad (+ bad 1) } else {}
+    if (!= b want_b) { set bad (+ bad 1) } else {}
+    return bad
+}
+fn main() -> int {
+    let mut bad: int = 0
+    let a: string = (mk %d).pname
+    let spoil: string = (mk_name 7)
+    (println a)
+    set bad (+ bad (same (mk 3).pname (mk_name 4) (mk_name 3) (mk_name 4)))
+    (println (+ (mk 4).pname (mk_name 9)))
+    (println (mk 5).inner.nm)
+    let t: array<string> = (mk 6).inner.itags
+    (println (at t 0))
+    let inn: Inner = (mk 14).inner
+    (println inn.nm)
+    let xs: array<int> = (mk 2).nums
+    (println (array_length xs))
+    (println (== (mk 12).pname "person-number-12"))
+    (println (pair 7).1)
+    (println (at (mk_arr 3) 2))
+    (println (array_length (at (mk_aa 2) 1)))
+    let sl: array<string> = (array_slice (mk_arr 4) 1 3)
+    (println (at sl 0))
+    let ks: array<string> = (map_keys (mkm 3))
+    (println (at ks 0))
+    (println (map_get (mkm 4) (mk_name 4)))
+    (println (shname 0))
+    (println (shname 1))
+    (println (shname 2))
+    let lit: string = Person { pname: (mk_name 11), age: 1, inner: (mk_in 2), nums: [] }.pname
+    (println lit)
+    let lit2: string = (at [(mk_name 21), (mk_name 22)] 1)
+    (println lit2)
+    let lit3: string = (3, (mk_name 23)).1
+    (println lit3)
+    let mut names: array<string> = []
+    let mut tags: array<array<string>> = []
+    let mut i: int = 0
+    while (< i %d) {
+        set names (array_push names (mk (+ 100 i)).pname)
+        set names (array_push names (mk (+ 200 i)).inner.nm)
+        set tags (array_push tags (mk (+ 300 i)).inner.itags)
+        set G_S (mk (+ 400 i)).pname
+        set G_P P { name: (mk (+ 500 i)).pname, xs: (mk i).nums, tags: (mk i).inner.itags }
+        set i (+ i 1)
+    }
+    set i 0
+    while (< i %d) {
+        if (!= (at names (* i 2)) (mk_name (+ 100 i))) { set bad (+ bad 1) } else {}
+        set i (+ i 1)
+    }
+    (println (array_length tags))
+    (println G_S)
+    (println G_P.name)
+    (println spoil)
+    (println bad)
+    return 0
+}
+""" % (b, n, n)
+
+
+TEMPLATES = [("temporaries", _t_temporaries), ("two_locals", _t_two_locals), ("containers", _t_containers), ("struct_sharing", _t_struct_sharing),
              ("frames", _t_frames), ("globals", _t_globals), ("interning", _t_interning), ("string_arrays", _t_string_arrays),
              ("fnvalues", _t_fnvalues), ("hashmap", _t_hashmap), ("slices", _t_slices), ("control", _t_control)]
 
@@ -1344,7 +1577,7 @@ def run(ctx):
     tally = Tally()
     with Scratch("c14") as sc:
         # ---- the hook must be alive: a control program under audit yields a summary with audits > 0 ----
-        ctl = {"main.nano": TEMPLATES[0][1](ctx.rng("control"))}
+        ctl = {"main.nano": _t_two_locals(ctx.rng("control"))}
         o = observe(asan, sc.sub("control"), ctl)
         judge(ctx, keyer, tally, "template", "control", ctl, o)
         if not ctx.violations:
